@@ -272,18 +272,18 @@ func runProp(p *Prop, repo, verif, tier string, seed int, list, writeEvidence bo
 			Coverage: map[string]interface{}{
 				"explanation": "Static analysis of /repo's current source (go/packages type-checked AST + go/ssa + VTA call graph; nothing is executed). DECIDED: " + p.Decided +
 					" NOT DECIDED: " + p.NotDecided,
-				"evaluations":        total,
+				"evaluations":         total,
 				"distinct_nontrivial": len(distinct),
-				"rule":               "one evaluation = one rule instance on one construct of the current source (a field access, a call site, a path, a table entry); non-trivial = needed a dominance/dataflow/path/table argument rather than a bare lookup; distinct = distinct (rule, construct) pairs. Rules: " + strings.Join(ruleDescs, " | "),
-				"samples":            samples,
-				"obligations":        total,
-				"discharged":         discharged,
-				"assumed":            assumed,
-				"known_findings":     known,
-				"per_rule":           ruleSumm,
-				"analysed":           map[string]interface{}{"packages": 6, "files": files, "functions": nfuncs, "configurations": cfgLabels},
-				"notes":              notes,
-				"exhaustive":         false,
+				"rule":                "one evaluation = one rule instance on one construct of the current source (a field access, a call site, a path, a table entry); non-trivial = needed a dominance/dataflow/path/table argument rather than a bare lookup; distinct = distinct (rule, construct) pairs. Rules: " + strings.Join(ruleDescs, " | "),
+				"samples":             samples,
+				"obligations":         total,
+				"discharged":          discharged,
+				"assumed":             assumed,
+				"known_findings":      known,
+				"per_rule":            ruleSumm,
+				"analysed":            map[string]interface{}{"packages": 6, "files": files, "functions": nfuncs, "configurations": cfgLabels},
+				"notes":               notes,
+				"exhaustive":          false,
 			}}
 		if ev.Assumptions == nil {
 			ev.Assumptions = []string{}
